@@ -28,19 +28,28 @@ class NeedSplit(Exception):
         self.atom, self.sets, self.fact = atom, sets, fact
 
 
+class NeedCong(Exception):
+    """the path must be split on the residue of `atom` modulo m"""
+
+    def __init__(self, atom, m):
+        Exception.__init__(self, "cong")
+        self.atom, self.m = atom, m
+
+
 # ------------------------------------------------------------------------------------------------
 
 class PC:
     """path condition: per-atom IntSets, linear facts (lin <= 0), opaque boolean facts"""
-    __slots__ = ("sets", "facts", "opq")
+    __slots__ = ("sets", "facts", "opq", "subst")
 
-    def __init__(self, sets=None, facts=(), opq=None):
+    def __init__(self, sets=None, facts=(), opq=None, subst=None):
         self.sets = sets or {}
         self.facts = tuple(facts)
         self.opq = opq or {}
+        self.subst = subst or {}      # atom -> Lin  (x = q*t + r after a congruence split)
 
     def copy(self):
-        return PC(dict(self.sets), self.facts, dict(self.opq))
+        return PC(dict(self.sets), self.facts, dict(self.opq), dict(self.subst))
 
     def describe(self):
         out = []
@@ -50,6 +59,8 @@ class PC:
             out.append("%r <= 0" % (f,))
         for k, v in sorted(self.opq.items(), key=repr):
             out.append("%s=%s" % (k, v))
+        for k, v in sorted(self.subst.items(), key=repr):
+            out.append("%s := %r" % (fmt_atom(k), v))
         return out
 
 
@@ -87,10 +98,51 @@ class St:
     def event(self, *e):
         self.events = self.events + (e,)
 
+    def norm(self, lin):
+        """apply the congruence substitutions of the path condition"""
+        sub = self.pc.subst
+        if not sub or not lin.terms:
+            return lin
+        changed = False
+        out = Lin.const(lin.c)
+        for a, k in lin.terms:
+            r = sub.get(a)
+            if r is not None:
+                out = out + self.norm(r).scale(k)
+                changed = True
+            else:
+                out = out + Lin.atom(a, k)
+        return out if changed else lin
+
+    def split_cong(self, atom, m):
+        """states for atom = m*t + r, r = 0..m-1"""
+        cur = self.aset(atom)
+        outs = []
+        for r in range(m):
+            lo, hi = cur.min(), cur.max()
+            tlo = 0 if lo == -INF else ceil_div(lo - r, m)
+            thi = INF if hi == INF else (hi - r) // m
+            if thi != INF and thi < tlo:
+                continue
+            t = ("quot", atom, m, r, max(tlo, 0) if lo != -INF else tlo, thi)
+            s2 = self.copy()
+            s2.pc.subst[atom] = Lin.atom(t, m) + r
+            outs.append(s2)
+        return outs
+
     # ---- ranges -----------------------------------------------------------------------------
     def aset(self, atom):
         s = self.pc.sets.get(atom)
         k = atom[0]
+        if k == "quot":
+            d = IntSet.range(atom[-2], atom[-1])
+            # bounds inherited from the set of the atom it divides
+            base = self.pc.sets.get(atom[1])
+            if base is not None and not base.is_empty():
+                m, r = atom[2], atom[3]
+                lo, hi = base.min(), base.max()
+                d = d.intersect(IntSet.range(-INF if lo == -INF else ceil_div(lo - r, m), INF if hi == INF else (hi - r) // m))
+            return d if s is None else d.intersect(s)
         if k == "fdiv":
             r = self.lin_range(atom[1])
             c = atom[2]
@@ -108,11 +160,16 @@ class St:
             else:
                 d = IntSet.range(0, c - 1)
             return d if s is None else d.intersect(s)
+        if atom in self.pc.subst:
+            d = self.lin_range(self.pc.subst[atom])
+            base = natural_range(atom) if s is None else s
+            return d.intersect(base)
         if s is None:
             s = natural_range(atom)
         return s
 
     def lin_range(self, lin):
+        lin = self.norm(lin)
         lo = hi = lin.c
         for a, k in lin.terms:
             s = self.aset(a)
@@ -149,7 +206,7 @@ class St:
                 return False
             return None
         if k == "le0":
-            lin = cond[1]
+            lin = self.norm(cond[1])
             r = self.lin_range(lin)
             if r.is_empty():
                 return True
@@ -175,7 +232,8 @@ class St:
                         rl = self.lin_range(lo_)
                         if not rl.is_empty() and rl.min() > 0:
                             return False
-            for f in self.pc.facts:
+            nfacts = [self.norm(f) for f in self.pc.facts] if self.pc.subst else self.pc.facts
+            for f in nfacts:
                 r = _ratio(lin, f)
                 if r is not None:
                     p_, q_, D = r          # q*lin = p*f + D  (p,q > 0):  lin <= floor(D/q)
@@ -186,7 +244,7 @@ class St:
                     p_, q_, D = r          # q*lin = p*(-f) + D >= D  :  lin >= ceil(D/q)
                     if -((-D) // q_) >= 1:
                         return False
-            for f in self.pc.facts:
+            for f in nfacts:
                 d = f - lin  # f <= 0 known; lin = f - d ; if d >= 0 const then lin <= f <= 0
                 if d.is_const() and d.c >= 0:
                     return True
@@ -229,6 +287,17 @@ class St:
             if new.is_empty():
                 return []
             a = cond[1]
+            if a in self.pc.subst:
+                sub = self.norm(Lin.atom(a))
+                sa = sub.single_atom()
+                if sa and sa[1] > 0:
+                    x, kk, d = sa
+                    base = []
+                    for lo, hi in new.iv:
+                        blo = -INF if lo == -INF else ceil_div(lo - d, kk)
+                        bhi = INF if hi == INF else (hi - d) // kk
+                        base.append((blo, bhi))
+                    return self.assume(("in", x, IntSet(base)), True)
             if a[0] == "fdiv":
                 # constrain the underlying atom instead:  fdiv(k*x+d, c) in [lo,hi]  <=>
                 # k*x+d in [c*lo, c*hi+c-1]
@@ -246,7 +315,7 @@ class St:
             s.pc.sets[cond[1]] = new
             return [s]
         if k == "le0":
-            lin = cond[1] if truth else (-cond[1] + 1)
+            lin = self.norm(cond[1] if truth else (-cond[1] + 1))
             sa = lin.single_atom()
             if sa:
                 a, kk, c = sa
@@ -329,7 +398,7 @@ def mk_const(v, w, s):
 def lin_of(st, v):
     """Lin of a VInt (converting a bit-vector when it is a recognisable pattern)"""
     if v.lin is not None:
-        return v.lin
+        return st.norm(v.lin) if st.pc.subst else v.lin
     return bv_to_lin(st, v)
 
 
@@ -573,6 +642,17 @@ class Interp:
         self.loop_limit = 64
         self.genv_stack = [None]
         self.watch_cells = set()
+        self.regions = []
+        self.loops = {}
+        self.nloop = 0
+        self.cong_atoms = set()      # atoms whose residue class may be split on demand
+
+    def cong_ok(self, atom):
+        if atom in self.cong_atoms:
+            return True
+        if atom[0] == "quot":
+            return self.cong_ok(atom[1])
+        return atom[0] == "sym" and str(atom[1]).startswith("$k")
 
     # ---- cells ------------------------------------------------------------------------------
     def new_cell(self, st, v=UNINIT):
@@ -658,6 +738,8 @@ class Interp:
         if isinstance(v, VSlice):
             return VInt(8, False, lin=Lin.atom(("byte", v.buf, (v.start + il).key())))
         if isinstance(v, VSeq):
+            if v.term[0] == "zeros":
+                return VInt(8, False, lin=Lin.atom(("old", il.key(), 0, 255)))
             return VInt(8, False, lin=Lin.atom(("byte", ("seq", v.term), il.key())))
         if isinstance(v, VList) and il.is_const():
             return v.items[il.c]
@@ -754,7 +836,24 @@ class Interp:
         t = seq.term
         if t[0] == "zeros":
             il = lin_of(st, idx)
-            return VSeq(("zeros", t[1], t[2] + ((il.key(), valkey(val)),)), seq.cap)
+            oldatom = ("old", il.key(), 0, 255)
+            cells = bv_of(st, val) if isinstance(val, VInt) else None
+            if cells is None:
+                raise Unanalysable("store of %r into a byte buffer" % (val,))
+            eff = []
+            for i, c in enumerate(cells):
+                bit = 7 - i
+                if c == (oldatom, bit):
+                    eff.append("keep")
+                elif c in (0, 1):
+                    eff.append("clear" if c == 0 else "set")
+                elif isinstance(c, tuple) and c[0] == "BitOr" and (oldatom, bit) in (c[1], c[2]):
+                    eff.append(("or", c[2] if c[1] == (oldatom, bit) else c[1]))
+                elif isinstance(c, tuple) and c[0] == "BitAnd" and (oldatom, bit) in (c[1], c[2]):
+                    eff.append(("and", c[2] if c[1] == (oldatom, bit) else c[1]))
+                else:
+                    eff.append(("assign", c))
+            return VSeq(("zeros", t[1], t[2] + (("w", il.key(), tuple(eff)),)), seq.cap)
         raise Unanalysable("store into %r" % (seq,))
 
     # ---- operands ---------------------------------------------------------------------------
@@ -1017,6 +1116,11 @@ class Interp:
                 qv = Lin(qt, rest.c // c)
                 mv = Lin.const(rest.c % c)
             else:
+                sa_ = rest.single_atom()
+                if sa_ and sa_[1] > 0 and self.cong_ok(sa_[0]) and st.aset(sa_[0]).size() > 64:
+                    # c does not divide the coefficient: decide the residue class of the atom
+                    from math import gcd
+                    raise NeedCong(sa_[0], c // gcd(sa_[1], c))
                 rr = st.lin_range(rest)
                 fa = ("fdiv", rest, c, rr.min() // c, rr.max() // c if rr.max() != INF else INF)
                 qv = Lin(qt, 0) + Lin.atom(fa)
@@ -1033,6 +1137,8 @@ class Interp:
         if base in ("Shl", "Shr"):
             lb = lin_of(st, b)
             ca = bv_of(st, a)
+            if not lb.is_const() and st.lin_set(lb).is_single():
+                lb = Lin.const(st.lin_set(lb).single())
             if not lb.is_const():
                 sset = st.lin_set(lb)
                 if sset.size() != INF and sset.size() <= 8:
@@ -1203,6 +1309,11 @@ class Interp:
             self.paths += 1
             if self.paths > self.budget * 50:
                 raise Unanalysable("step budget exceeded in " + body["def"])
+            if si == 0 and self.regions:
+                rg = self.regions[-1]
+                if rg["body"] is body and rg["frame"] is frame and bb == rg["stop"]:
+                    rg["backs"].append(st)
+                    return
             if si == 0:
                 visits = dict(visits)
                 visits[bb] = visits.get(bb, 0) + 1
@@ -1217,6 +1328,10 @@ class Interp:
                 nxt = self.exec_term(st, body, frame, bb, blk["term"], results)
             except NeedSplit as ns:
                 for alt in self.split_states(st, ns):
+                    work.append((alt, bb, si, visits))
+                return
+            except NeedCong as nc:
+                for alt in st.split_cong(nc.atom, nc.m):
                     work.append((alt, bb, si, visits))
                 return
             if not nxt:
@@ -1316,6 +1431,7 @@ class Interp:
                 return [(st, t["target"])]
             return [(s, t["target"]) for s in st.assume(cond, want)]
         if "call" in t:
+            self._cur_results = results
             outs = self.call(st.copy(), body, frame, bb, t)
             nxt = []
             for (s2, rv) in outs:
@@ -1410,7 +1526,7 @@ class Interp:
             fv = self.operand(st, frame, callee["indirect"])
             raise Unanalysable("indirect call through %r" % (fv,))
         args = [self.operand(st, frame, a) for a in t["args"]]
-        ctx = {"body": body, "bb": bb, "term": t, "frame": frame}
+        ctx = {"body": body, "bb": bb, "term": t, "frame": frame, "results": self._cur_results}
         return self.call_fn(st, callee, args, ctx)
 
     def call_fn(self, st, callee, args, ctx):
@@ -1730,8 +1846,159 @@ class Interp:
             return self.exec_fn(st, self.f.bodies[via["def"]], [payload])
         return [(st, VOpaque("converted_error"))]
 
+    def run_region(self, st, body, frame, start_bb, stop_bb):
+        """execute from start_bb until control returns to stop_bb (the loop header) or leaves the
+        function; -> (states at the back edge, [(st, retval)] returned from inside the region)"""
+        rg = {"body": body, "frame": frame, "stop": stop_bb, "backs": []}
+        self.regions.append(rg)
+        rets = []
+        try:
+            work = [(st, start_bb, 0, {})]
+            while work:
+                s2, bb, si, visits = work.pop()
+                self.run_path(s2, body, frame, bb, si, visits, work, rets)
+        finally:
+            self.regions.pop()
+        return rg["backs"], rets
+
     def iter_next(self, st, r, it, ctx):
-        raise Unanalysable("slice iteration outside the loop rule")
+        """Iterator::next on a slice iterator.  A constant-length slice is iterated concretely; a
+        symbolic one is summarised by the counted-slice loop rule (DESIGN 2.2)."""
+        sl = it.slice
+        pos = st.norm(it.pos)
+        n = st.norm(sl.len)
+        if n.is_const() and pos.is_const():
+            if pos.c < n.c:
+                cell = self.new_cell(st, VInt(8, False, lin=Lin.atom(("byte", sl.buf, (sl.start + pos.c).key()))))
+                self.write_loc(st, r.cell, r.path, VIter(sl, Lin.const(pos.c + 1)))
+                return [(st, mk_some(VRef(cell, ())))]
+            return [(st, NONE)]
+        if not (pos.is_const() and pos.c == 0):
+            raise Unanalysable("slice iterator re-entered in the middle of a summarised loop")
+        body, frame, hdr, term = ctx["body"], ctx["frame"], ctx["bb"], ctx["term"]
+        tgt = term["target"]
+        dest = term["dest"]
+        self.nloop += 1
+        lid = self.nloop
+        kk = ("sym", "$k%d" % lid, 0, MAXLEN)
+        pre_cells = set(st.store.keys())
+        # ---- phase A: one probing iteration (k = 0) to find the loop-carried cells
+        backsA = []
+        stA = st.copy()
+        xs = stA.assume(("le0", -sl.len + 1), True)
+        if xs:
+            stA = xs[0]
+            cellA = self.new_cell(stA, VInt(8, False, lin=Lin.atom(("byte", sl.buf, sl.start.key()))))
+            self.write_loc(stA, r.cell, r.path, VIter(sl, Lin.const(1)))
+            self.write_place(stA, frame, dest, mk_some(VRef(cellA, ())))
+            saved = (self.obl, self.unknown_ext, self.leaf_calls)
+            self.obl, self.unknown_ext, self.leaf_calls = {}, {}, {}
+            try:
+                backsA, _ = self.run_region(stA, body, frame, tgt, hdr)
+            finally:
+                self.obl, self.unknown_ext, self.leaf_calls = saved
+        induct = {}     # cell -> delta
+        seqs = set()
+        temps = set()
+        for b in backsA:
+            for c in pre_cells:
+                if c == r.cell and not r.path:
+                    continue
+                old, new = st.store[c], b.store.get(c)
+                if new is old:
+                    continue
+                if isinstance(old, VInt) and isinstance(new, VInt):
+                    d = lin_of(b, new) - lin_of(st, old)
+                    if d.is_const() and induct.get(c, d.c) == d.c and c not in temps:
+                        induct[c] = d.c
+                        continue
+                    induct.pop(c, None)
+                    temps.add(c)
+                elif isinstance(old, VSeq) and old.term[0] == "zeros" and isinstance(new, VSeq) and new.term[0] == "zeros" and new.term[1] == old.term[1]:
+                    seqs.add(c)
+                elif valkey(old) != valkey(new):
+                    temps.add(c)
+        for c in list(induct):
+            if c in temps:
+                del induct[c]
+        # ---- phase B: the generic iteration k (repeated until the set of temporaries is stable)
+        for _round in range(6):
+            stG = st.copy()
+            xs = stG.assume(("le0", Lin.atom(kk) - sl.len + 1), True)
+            backsG, retsG = [], []
+            saved = (self.obl, self.unknown_ext, self.leaf_calls, self.ncell)
+            self.obl, self.unknown_ext, self.leaf_calls = dict((k_, _clone_obl(o_)) for k_, o_ in self.obl.items()), dict(self.unknown_ext), dict(self.leaf_calls)
+            if xs:
+                stG = xs[0]
+                for c, d in induct.items():
+                    old = st.store[c]
+                    stG.store[c] = VInt(old.w, old.s, lin=lin_of(st, old) + Lin.atom(kk, d))
+                for c in seqs:
+                    old = st.store[c]
+                    stG.store[c] = VSeq(("zeros", old.term[1], old.term[2] + (("loop", lid),)), old.cap)
+                for c in temps:
+                    stG.store[c] = UNINIT
+                cellG = self.new_cell(stG, VInt(8, False, lin=Lin.atom(("byte", sl.buf, (sl.start + Lin.atom(kk)).key()))))
+                self.write_loc(stG, r.cell, r.path, VIter(sl, Lin.atom(kk) + 1))
+                self.write_place(stG, frame, dest, mk_some(VRef(cellG, ())))
+                stG.event("loop_iter", lid)
+                backsG, retsG = self.run_region(stG, body, frame, tgt, hdr)
+            new_temps = set()
+            for b in backsG:
+                for c in pre_cells:
+                    if c in induct or c in seqs or c in temps or (c == r.cell):
+                        continue
+                    if b.store.get(c) is not st.store[c] and valkey(b.store.get(c)) != valkey(st.store[c]):
+                        new_temps.add(c)
+            if not new_temps:
+                break
+            # discard this round (its obligations were evaluated with stale temporaries)
+            self.obl, self.unknown_ext, self.leaf_calls = saved[0], saved[1], saved[2]
+            temps |= new_temps
+        else:
+            raise Unanalysable("loop temporaries do not stabilise", (body["def"], hdr))
+        summary = []
+        for b in backsG:
+            for c, d in induct.items():
+                old = st.store[c]
+                want = lin_of(st, old) + Lin.atom(kk, d) + d
+                got = b.store.get(c)
+                if not isinstance(got, VInt) or not (b.norm(lin_of(b, got) - want)).is_const() or b.norm(lin_of(b, got) - want).c != 0:
+                    raise Unanalysable("loop-carried variable is not a linear induction", (body["def"], hdr))
+            writes = {}
+            for c in seqs:
+                old = st.store[c]
+                got = b.store.get(c)
+                base = old.term[2] + (("loop", lid),)
+                if not (isinstance(got, VSeq) and got.term[0] == "zeros" and got.term[2][:len(base)] == base):
+                    raise Unanalysable("buffer written in the loop is not an accumulation", (body["def"], hdr))
+                writes[c] = got.term[2][len(base):]
+            summary.append((b, writes))
+        self.loops[lid] = {"kk": kk, "slice": sl, "backs": summary, "rets": retsG, "induct": induct, "seqs": seqs, "def": body["def"], "hdr": hdr}
+        # results returned from inside the loop body belong to the enclosing function
+        for (s2, rv) in retsG:
+            s2.event("loop_return", lid)
+            ctx["results"].append((s2, rv))
+        # ---- exit state
+        stE = st.copy()
+        for c, d in induct.items():
+            old = st.store[c]
+            stE.store[c] = VInt(old.w, old.s, lin=lin_of(st, old) + sl.len.scale(d))
+        for c in seqs:
+            old = st.store[c]
+            stE.store[c] = VSeq(("zeros", old.term[1], old.term[2] + (("loopsum", lid),)), old.cap)
+        for c in temps:
+            stE.store[c] = UNINIT
+        self.write_loc(stE, r.cell, r.path, VIter(sl, sl.len))
+        stE.event("loop_done", lid)
+        return [(stE, NONE)]
+
+def _clone_obl(o):
+    n = Obligation(o.site, o.kind, o.loc, o.macros)
+    n.visits = o.visits
+    n.failures = list(o.failures)
+    return n
+
 
 class VApp(Val):
     """result of a leaf decoder applied to argument values (not inlined); proj = projections
